@@ -8,7 +8,12 @@ TRUSTED_BASE = _life.TRUSTED_BASE + [
     'trusted: the reading of the source into the AST of Life/ImpSyntax.v (what counts as tracked: _machine, _lock, _callback, pubsub.close, '
     '_hook.(a)hook, _imp, _continuous, _started, _closed; everything else in those positions fails closed), the semantics of Life/ImpTie.v '
     '(async with releases on every exit, try/finally, asynccontextmanager = body at the yield, asyncio.Lock not re-entrant), and the call '
-    'lists of continuous.py (which Nextline methods Continuous.run_and_continue / run_continue_and_wait call)',
+    'lists of continuous.py (which Nextline methods Continuous.run_and_continue / run_continue_and_wait call); '
+    'definitional in the interpreter, not proved: `async with lock` releases on every exit, try/finally, `except BaseException` '
+    'catches every exception incl. cancellation, wait_for(c, t) = c with any await possibly the cancelled one; positions that are '
+    'not translated may only contain calls of a fixed list (imp_skeleton.py ALLOWED_CALLS / LOGGER_CALLS / INIT_CALLS), `self.<known attribute>`, '
+    'no assert; the per-call refinement (ImpTie.v section 5) is by computation on seven representative model states, one task, lock free; '
+    'fsm/machine.py is read for names only (pin), fsm/callback.py (the unlocked `finish` trigger of the run task) is not read by this tie',
 ]
 ASSUMPTIONS = _life.ASSUMPTIONS
 correspond, search, replay = _life.make('C15')
